@@ -297,7 +297,7 @@ PROPS['C18'] = dict(
 )
 
 PROPS['C11'] = dict(
-    families=[dict(name='c11-rdfa', quick=2500, thorough=200000), dict(name='c11-microdata', quick=2000, thorough=150000),
+    families=[dict(name='c11-rdfa', quick=2500, thorough=200000), dict(name='c11-rdfa-seeds', quick=400, thorough=400), dict(name='c11-microdata', quick=2000, thorough=150000),
               dict(name='c11-script', quick=1200, thorough=80000), dict(name='c11-combined', quick=800, thorough=60000)],
     slice=15,
     rule='RDFa: HTML5 documents drawn as element trees (html / head with title, base, meta, link / body with div, section, ul, li, span, em, a, img, meta, link and text) where every element may carry any combination of about, resource, href, src, typeof, property, rel, rev, content, datatype, inlist, prefix, vocab, lang: '
@@ -305,8 +305,8 @@ PROPS['C11'] = dict(
          'Microdata: trees with itemscope / itemid / itemtype / itemprop / itemref on the elements with different value rules (meta, img, audio, a, link, object, data, plain elements), nested items, absolute and vocabulary-relative names, items referenced before and after their definition and from several items, duplicate ids, properties outside items; '
          'JSON-LD: datasets written by the C10 writer into one to three script elements in head or body, next to other scripts, with the type attribute in plain, upper-case, parameterised and padded form; '
          'each tree is written as HTML with free attribute order, quoting (double, single, none), letter case of tags and attributes, character references, comments, foreign attributes, valueless attributes, optional doctype; location and base element varied (offset capture is the business of C16 and is off here). '
-         'combined: documents carrying all three syntaxes (with blank node labels shared between them); the combined decoder must give the disjoint union of the three decoders on the same document',
-    trusted_base=['model/Rdfa.v: RDFa Core 1.1 section 7.5 with the HTML+RDFa 1.1 rules for head / body / base / lang / terms in @rel, over the parsed element tree; outside the model: XMLLiteral / HTML literals, @datetime and time, rdfa:copy, xmlns: prefixes, vocabulary expansion, the full initial context',
+         'c11-rdfa-seeds: the HTML5 documents of the rdfa.info suite shipped in the repository (142 without @datetime / time, XMLLiteral, rdfa:copy, xmlns:, xml:lang), read from the tree x/net/html builds; combined: documents carrying all three syntaxes (with blank node labels shared between them); the combined decoder must give the disjoint union of the three decoders on the same document',
+    trusted_base=['model/Rdfa.v: RDFa Core 1.1 section 7.5 with the HTML+RDFa 1.1 rules for head / body / base / lang / terms in @rel, over the parsed element tree; with the prefixes of the RDFa 1.1 initial context and its three terms; outside the model: XMLLiteral / HTML literals, @datetime and time, rdfa:copy, xmlns: prefixes, vocabulary expansion',
                   'model/Microdata.v: the Microdata item model with the value rules and type-relative property names (type up to its last "/"); outside: time / meter typing, language, short names on items without a type',
                   'model/JsonLd.v for script elements; golang.org/x/net/html builds the element tree (its reading of the HTML text is exercised, not modelled); the harness HTML writer',
                   'the combined decoder is compared with the three decoders it combines, whose results the other three families check'],
@@ -318,12 +318,12 @@ PROPS['C11'] = dict(
 )
 
 PROPS['C10'] = dict(
-    families=[dict(name='c10-decode', quick=2500, thorough=200000), dict(name='c10-encode', quick=2500, thorough=200000)],
+    families=[dict(name='c10-decode', quick=2500, thorough=200000), dict(name='c10-encode', quick=2500, thorough=200000), dict(name='c10-seeds', quick=1000, thorough=1000)],
     slice=20,
     rule='decoder direction: datasets drawn as syntax-free descriptions (default and named graphs with IRI and blank node names, nodes shared between graphs, rdf:type incl. blank node types, IRIs under and outside the base, labelled blank nodes, plain / language-tagged / typed literals incl. canonical and non-canonical integers and booleans, lists incl. empty lists and lists of lists); '
          'each written as JSON-LD by the harness writer with random choices: no context (expanded), top-level array / single object / @graph; inline context with prefixes (simple and expanded, @prefix true/false, namespaces without a gen-delim), terms (simple, expanded, compact-IRI terms), type coercion @id / @vocab / datatype, term @language (tag and null), @container @list / @set, @vocab (and null), @base (absolute and relative), default @language (and null), keyword aliases, a term mapped to null, context arrays starting with null, nested contexts on node objects; '
          'embedded nodes, anonymous nodes, graph objects carrying properties, anonymous graph objects, native booleans and integers, value objects, @set, nulls in arrays, @type for rdf:type; key order shuffled, JSON text with varying white space and escapes (\\uXXXX, surrogate pairs); decoded in the default, json-ld-1.1 and (when no 1.1-only construct is used) json-ld-1.0 processing modes, offset capture on 1/4; '
-         'encoder direction: default-graph datasets of the C02 generator (twins, lists, every literal kind, IRIs of every shape) with at most one "#" per IRI, written by jsonld.Encoder under base x prefixes x buffered x labeller, decoded again; xsd:integer and xsd:double literals compared by value; the Coq model reads the encoder output as an independent decoder',
+         'encoder direction: default-graph datasets of the C02 generator (twins, lists, every literal kind, IRIs of every shape) with at most one "#" per IRI, written by jsonld.Encoder under base x prefixes x buffered x labeller, decoded again; xsd:integer and xsd:double literals compared by value; the Coq model reads the encoder output as an independent decoder; c10-seeds: the input documents of the W3C expand and toRdf suites shipped in the repository which the decoder accepts without options: the model reads those inside its part of JSON-LD (about 200; it declines the others)',
     trusted_base=['model/JsonLd.v: the JSON-LD 1.1 mapping from JSON trees to quads for the constructs listed (everything else answers None); JSON text, remote contexts, scoped contexts, @reverse, @nest, @included, @index, @json, @direction and non-integer numbers are not modelled',
                   'the harness JSON-LD writer and its own reading of IRI expansion (ctx.expand), which decides the expected dataset; encoding/json for re-reading the encoder output into the token form'],
     assumptions=['numbers are drawn within +-2^53 (JSON numbers are doubles)', 'an IRI whose scheme is a prefix of the context cannot be written under that context; such draws are discarded'],
@@ -333,11 +333,11 @@ PROPS['C10'] = dict(
 )
 
 PROPS['C09'] = dict(
-    families=[dict(name='c09-rdfxml', quick=3000, thorough=300000)],
+    families=[dict(name='c09-rdfxml', quick=3000, thorough=300000), dict(name='c09-seeds', quick=400, thorough=400)],
     slice=25,
     rule='element trees drawn production by production from RDF 1.1 XML Syntax section 7: rdf:RDF or a single node element as root; typed and plain node elements; rdf:about (absolute and all kinds of relative references, empty), rdf:ID, rdf:nodeID; property attributes and rdf:type attributes; '
          'property elements: literal (with and without rdf:datatype, empty), resource (nested node element), empty with rdf:resource / rdf:nodeID / property attributes / nothing, parseType Resource and Collection, rdf:ID reification, rdf:li and explicit rdf:_n; xml:lang (incl. "") and xml:base (absolute, relative, with fragment) on every kind of element, nested three deep; '
-         'each tree written as XML text with free choice of namespace prefixes (incl. a default namespace), attribute order and quoting, white space and comments between elements, character references, CDATA, XML declaration, empty-element tags; decoded with offset capture on (1/3) and off; the decoded graph is compared, up to blank node renaming, with the triples the Gallina model of the mapping assigns to the same tree',
+         'each tree written as XML text with free choice of namespace prefixes (incl. a default namespace), attribute order and quoting, white space and comments between elements, character references, CDATA, XML declaration, empty-element tags; decoded with offset capture on (1/3) and off; the decoded graph is compared, up to blank node renaming, with the triples the Gallina model of the mapping assigns to the same tree; c09-seeds: the 119 positive documents of the W3C RDF/XML suite shipped in the repository which stay inside the model (no parseType Literal, no DTD entities), read from the tree encoding/xml delivers',
     trusted_base=['model/RdfXml.v: the RDF/XML mapping on namespace-resolved trees (rdf:parseType="Literal" excluded), with model/Iri3986.v for reference resolution; it is the denotation the decoder is compared with',
                   'the harness XML writer; encoding/xml and inspectxml tokenisation are exercised, not modelled'],
     assumptions=['by the letter of production 7.2.21 an empty property element carrying only rdf:datatype denotes a blank node; model and decoder both follow it'],
